@@ -457,7 +457,7 @@ def frag(rng, W, depth=0):
         if t == "ref":
             nm = rng.choice(["", "", 'name="n1"', 'name="n2"', 'name=n1', 'name="n1"',
                              "name=" + spell_name(rng, rng.choice(name_variants(rng.choice(["n1", "n2", "a b"]))))])
-            nm = ref_attrs(rng, nm, refgroup(rng, W, 0.3))      # name x group, independently
+            nm = ref_attrs(rng, nm, refgroup(rng, W, 0.3, keycase=True))      # name x group, independently
             return rng.choice(["<ref%s>%s</ref>" % (nm, frag(rng, W, d + 1)), "<ref%s/>" % nm, "<ref%s></ref>" % nm, "<ref%s>x</ref>" % nm])
         if t == "gallery":
             return "\n<gallery%s>\nFile:%s.jpg|%s\nImage:%s.png\n%s\n</gallery>\n" % (attrs(rng), W(), frag(rng, W, d + 2), W(), W())
@@ -785,13 +785,13 @@ REF_GROUPS = ["note", "lower-alpha", "nb 1", "N", "Émile", "n", "smith"]
 GROUPED_REDEFINITION = False
 
 
-def refgroup(rng, W, p=0.5, other_than=None):
+def refgroup(rng, W, p=0.5, other_than=None, keycase=False):
     """the group of one <ref>: '' (absent, probability 1-p) or 'group=..' with the document's first group, its second group or
     the empty string (absent, to a reader), quoted like a name; the two groups are drawn once per document.
     other_than: a group attribute text - the result then names a different group (absent and empty are the same group)"""
     if other_than is not None:
         for _ in range(50):
-            x = refgroup(rng, W, p)
+            x = refgroup(rng, W, p, keycase=keycase)
             if group_value(x) != group_value(other_than):
                 return x
         p = 1.0
@@ -804,7 +804,7 @@ def refgroup(rng, W, p=0.5, other_than=None):
         g = [x for x in W.groups if x != group_value(other_than)][0]
     if not g:
         return "group=%s" % rng.choice(['""', "''"])
-    k = "group" if rng.random() < 0.95 else rng.choice(["GROUP", "Group"])
+    k = "group" if not keycase or rng.random() < 0.93 else rng.choice(["GROUP", "Group"])      # (keys keep their case in vlist)
     return "%s=%s" % (k, spell_name(rng, g))
 
 
@@ -882,7 +882,7 @@ def refname_doc(rng, W, ordinary=False):
         v = base if rng.random() < 0.5 else rng.choice(vs)
         att = ("%s=%s" if ordinary or rng.random() < 0.85 else rng.choice(["%s = %s", "%s= %s"])) % (
             "name" if ordinary or rng.random() < 0.9 else rng.choice(["NAME", "Name"]), spell_name(rng, v))
-        ga = refgroup(rng, W, pg, other_than=defgroup if k.startswith("def") else None)     # the group of THIS occurrence
+        ga = refgroup(rng, W, pg, other_than=defgroup if k.startswith("def") else None, keycase=not ordinary)     # the group of THIS occurrence
         if k.startswith("def"):
             defgroup = ga
             k = "def"
